@@ -779,6 +779,8 @@ C14_nodes(step) ==
         /\ SameBag([i \in 1..Len(declared) |-> [k |-> declared[i].k, id |-> declared[i].id]],
                    [i \in 1..Len(els) |-> [k |-> els[i].k, id |-> els[i].id]])
         /\ Cardinality(inferred) = Len(got) - Len(declared)          \* no inferred node twice
+        /\ Cardinality({n.id : n \in inferred}) = Len(got) - Len(declared)   \* ONE per undeclared endpoint, whatever
+                                                                            \* kinds the positions referring to it suggest
         /\ {n.id : n \in inferred} = {n.id : n \in GInferred(U)} \ GDeclared(U)
         /\ \A n \in inferred : \E m \in GInferred(U) : m.id = n.id /\ m.k = n.k)
 C14_edges(step) ==
